@@ -272,7 +272,8 @@ def check_comp(case):
     execs = 0
     if case['comp'].startswith('assembly'):
         from compmech.panel.assembly import PanelAssembly
-        specs = [(3, 3, 0.6, 'cross_sym', 'g1'), (4, 3, 0.4, 'general', 'g1'), (2, 5, 0.5, 'angle', 'g2')][:int(case['comp'][-1])]
+        specs = ([(3, 3, 0.6, 'cross_sym', 'g1'), (4, 3, 0.4, 'general', 'g1')] if case['comp'] == 'assembly2' else
+                 [(3, 3, 0.6, 'cross_sym', 'g1'), (2, 5, 0.5, 'angle', 'g2'), (4, 3, 0.4, 'general', 'g1')])       # group g1 is not contiguous in the panel list
         panels = []
         for (m, n, b, lam, grp) in specs:
             p = pan.make_panel(dict(model='plate', a=2.0, b=b, lam=lam, m=m, n=n, seed=seed, fbase='generic'))
